@@ -31,6 +31,7 @@ def install(stripe_height):
 
 CHAIN_OPS = ["conv3x3", "conv3x3s2", "conv5x5_c24", "conv3x3d2", "conv2x2v", "conv3x3v_relu6", "dw3x3", "dw3x3s2", "dw5x5v", "maxpool2x2",
              "avgpool3x3same", "maxpool3x3s1same", "add_const", "leaky_relu"]
+LUT_OPS = ("leaky_relu", "logistic", "tanh", "hard_swish")
 FORCED_CFGS = [dict(acc="ethos-u55-128", mem="Shared_Sram"), dict(acc="ethos-u65-256")]
 
 
@@ -44,7 +45,12 @@ def forced_cases(tier):
     cases = []
     depths = [(2, CHAIN_OPS)] if tier == "quick" else [(2, CHAIN_OPS), (3, CHAIN_OPS[:10])]
     extra3 = [["pad_hw", "conv2x2v", "conv3x3"], ["pad_hw_asym", "conv2x2v", "dw3x3"], ["conv3x3", "dw3x3", "conv1x1"], ["conv3x3s2", "conv3x3", "maxpool2x2"],
-              ["resize_nn2", "conv3x3", "dw3x3"], ["conv3x3", "add_const", "conv3x3"], ["conv3x3", "resize_nn2", "conv3x3"]]
+              ["resize_nn2", "conv3x3", "dw3x3"], ["conv3x3", "add_const", "conv3x3"], ["conv3x3", "resize_nn2", "conv3x3"],
+              # anisotropic dilation (the height and the width dilation must not be confused), with bottom padding, striped
+              ["conv3x3d2x1"], ["conv3x3d1x2"], ["dw3x3d2x1"], ["conv3x3", "conv3x3d2x1"], ["conv3x3d1x2", "conv3x3"], ["conv3x3d2x1", "conv3x3d1x2"],
+              ["conv1x1", "dw3x3d2x1", "conv1x1"],
+              # two different tables inside one cascade
+              ["conv3x3", "leaky_relu", "conv3x3"], ["leaky_relu", "conv3x3", "logistic"], ["logistic", "conv1x1", "tanh"]]
     hists = []
     for d, sigma in depths:
         for steps in itertools.product(sigma, repeat=d):
@@ -60,7 +66,11 @@ def forced_cases(tier):
         heights = [x for x in range(1, max(oh // 2, 1) + 1)]
         if tier == "quick":
             heights = [x for x in heights if x <= 5]
-        for cfg in FORCED_CFGS:
+        cfgs = list(FORCED_CFGS)
+        if any(x in LUT_OPS for x in steps):
+            # parts without reserved table banks: every interleaved stripe of another operator destroys the table
+            cfgs.append(dict(acc="ethos-u55-64", mem="Shared_Sram"))
+        for cfg in cfgs:
             for sh in heights:
                 cases.append(dict(h=h, cfg=cfg, forced=sh, level="forced"))
     return cases
